@@ -164,11 +164,10 @@ def deser(R, ctx):
     vm = [f for f in lib.fn_list if f["path"].endswith("::visit_map") and "dyn rules::Rule" in f["path"] and thir.body_of(f)]
     if R.require(rid, "anchor:rule-visit_map", len(vm) == 1, "", "%d candidates" % len(vm)):
         f = vm[0]
-        n = 0
-        for c in thir.calls(f):
-            if c.get("fname") == "next_value" and any("OneOrMany" in lib.ty_str(g) for g in c.get("gargs", [])):
-                n += 1
-        R.ob(rid, "rule-object|filters-one-or-many", n >= 2, ctx.where(f), "%d next_value::<OneOrMany<FilterPattern>> reads (apply + skip)" % n)
+        arms = interproc.key_arms(f)
+        one_or_many = lambda c: c.get("k") == "Call" and c.get("fname") == "next_value" and any("OneOrMany" in lib.ty_str(g) for g in c.get("gargs", []))
+        got = [k for k in ("apply_to_files", "skip_files") if k in arms and interproc.reaches(lib, arms[k], one_or_many)]
+        R.ob(rid, "rule-object|filters-one-or-many", len(got) == 2, ctx.where(f), "arms reading next_value::<OneOrMany<FilterPattern>> (directly or in a local helper): %s" % got)
 
 
 def glob(R, ctx):
